@@ -278,4 +278,38 @@ theorem instrOK_muldiv (op : MulDiv) (rs rt : Reg) : InstrOK (.muldiv op rs rt) 
     obtain ⟨σ', hr, hsim⟩ := mult_correct hσ .zext (.inr rfl) rs rt a
     exact ⟨rfl, σ', hr, by simpa using hsim, rfl⟩
 
+theorem sw32_sext64 (x : Word) : (x.signExtend 64).setWidth 32 = x := by
+  apply BitVec.eq_of_getLsbD_eq
+  intro i hi
+  simp only [BitVec.getLsbD_setWidth, BitVec.getLsbD_signExtend]
+  have h1 : i < 64 := by omega
+  simp [hi, h1]
+
+theorem Eqv.weaken {a b : St} (h : Eqv false a b) : Eqv true a b :=
+  ⟨h.r, fun c => Bool.noConfusion c, fun c => Bool.noConfusion c, h.mem, h.be⟩
+
+/-- mul rd, rs, rt: the low word of the product; HI and LO are UNPREDICTABLE afterwards (the IL leaves them alone) -/
+theorem mul_correct {σ : State} (hσ : StateOK σ) (rd rs rt : Reg) (a : Nat) :
+    ∃ σ', runGraph (g1 a [.assign (rsc rd) (.ext .trun 32 (.bin .mul (.ext .sext 64 (rx rs)) (.ext .sext 64 (rx rt))))]) 4096 ⟨0, 0, σ⟩ = .done σ' ∧
+      Sim true σ σ' ((absState σ).w rd (r3 .mul ((absState σ).r rs) ((absState σ).r rt) ((absState σ).r rd))) := by
+  obtain ⟨t1, v1⟩ := value_ext64 .sext (.inl rfl) (typed_rx hσ rs) (bits_rx rs) (value_rx hσ rs)
+  obtain ⟨t2, v2⟩ := value_ext64 .sext (.inl rfl) (typed_rx hσ rt) (bits_rx rt) (value_rx hσ rt)
+  simp only [if_true] at v1 v2
+  have vm := value_bin32 v1 v2 (show Spec.binBV .mul _ _ = some (ofBV (((absState σ).r rs).signExtend 64 * ((absState σ).r rt).signExtend 64)) from rfl)
+  have tm : TypedE σ (.bin .mul (.ext .sext 64 (rx rs)) (.ext .sext 64 (rx rt))) := typed_bin t1 t2 rfl
+  have vt : value σ (.ext .trun 32 (.bin .mul (.ext .sext 64 (rx rs)) (.ext .sext 64 (rx rt)))) =
+      .ok (ofBV (r3 .mul ((absState σ).r rs) ((absState σ).r rt) ((absState σ).r rd))) := by
+    rw [show value σ (.ext .trun 32 (.bin .mul (.ext .sext 64 (rx rs)) (.ext .sext 64 (rx rt)))) =
+      (value σ (.bin .mul (.ext .sext 64 (rx rs)) (.ext .sext 64 (rx rt))) >>= fun c => Spec.ext .trun c 32) from rfl, vm]
+    simp only [Res.bind_ok, Spec.ext, ofBV_bits, toBV_ofBV]
+    rw [if_neg (by decide)]
+    congr 2
+    show BitVec.setWidth 32 _ = _
+    rw [BitVec.setWidth_mul _ _ (by decide), sw32_sext64, sw32_sext64]
+    rfl
+  obtain ⟨σ', hr, hsim⟩ := assign_reg_correct hσ a rd _ _
+    (show TypedE σ (.ext .trun 32 (.bin .mul (.ext .sext 64 (rx rs)) (.ext .sext 64 (rx rt)))) from
+      ⟨tm, by decide, by decide, (by decide : (32 : Nat) < 64)⟩) rfl vt 4094
+  exact ⟨σ', hr, hsim.ok, hsim.eqv.weaken, hsim.endian, hsim.latch⟩
+
 end Falcon.Isa.Mips
